@@ -13,7 +13,9 @@ RULE = ('references and queries on a coordinate lattice commensurate with both c
         'present with opposite Orientation, the same reference, the same reference labels, query label k <-> N+1-k, and '
         'Confidence equal to the cent. Non-trivial = pair with both records present; distinct by content hash.')
 ASSUMPTIONS = ['pairs in which two different candidates of a query tie exactly in confidence are skipped and counted '
-               '(selection between equals legitimately depends on strand order)']
+               '(selection between equals legitimately depends on strand order)',
+               'likewise pairs in which the peaksCount-th and the next primary peak of a query have the same score (the two '
+               'strands of a nearly palindromic molecule): which of them becomes a seed depends on strand order']
 MINIMUMS = {'mirror-pairs': {'quick': 900, 'thorough': 15000}, 'pairs-with-records': {'quick': 700, 'thorough': 12000},
             'multi-segment-pairs': {'quick': 8, 'thorough': 150}, 'noisy-pairs': {'quick': 400, 'thorough': 8000}}
 
@@ -81,10 +83,11 @@ def make_case(rng):
 
 
 def judge(case, wd, sh):
-    cands = []
+    cands, inits = [], []
     pc = hooks.PassCounter()
     with pc.install():
-        run = pipeline.run_inprocess(case, wd, serial=True, extensions=[hooks.candidates_extension(pc, cands)])
+        run = pipeline.run_inprocess(case, wd, serial=True, extensions=[hooks.candidates_extension(pc, cands),
+                                                                         hooks.initial_extension(pc, inits)])
     sh.evaluations += 1
     if run.error:
         sh.count('aborted-runs')
@@ -102,6 +105,19 @@ def judge(case, wd, sh):
             tops = [a for a in ne if abs(a.confidence - best) < 1e-9]
             if len({(a.referenceId, a.reverseStrand, tuple(oracles.row_pairs(a))) for a in tops}) > 1:
                 ties.add(q.moleculeId)
+    # seed-score ties at the peaksCount cut: which of two equally scored primary peaks (e.g. the two strands of a nearly
+    # palindromic molecule) becomes a seed legitimately depends on strand order
+    import collections
+    allpeaks = collections.defaultdict(list)
+    for ps, q, rid, rev, peaks in inits:
+        if ps == 1:
+            allpeaks[q.moleculeId] += [s for s, _ in peaks]
+    P_ = case['params']['p']
+    seed_ties = set()
+    for qid, sc in allpeaks.items():
+        sc = sorted(sc, reverse=True)
+        if len(sc) > P_ and abs(sc[P_ - 1] - sc[P_]) < 1e-9:
+            seed_ties.add(qid)
     for a, b, N, noisy in case['mirror_pairs']:
         sh.count('mirror-pairs')
         if noisy:
@@ -112,6 +128,9 @@ def judge(case, wd, sh):
             continue
         if a in ties or b in ties:
             sh.count('exact-confidence-ties-skipped')
+            continue
+        if a in seed_ties or b in seed_ties:
+            sh.count('seed-score-ties-at-the-cut-skipped')
             continue
         focus = {'pair': [a, b], 'N': N}
         slim = dict(pipeline.slim_case(case), kind='e2e', mirror_pairs=case['mirror_pairs'], focus=focus)
